@@ -4,6 +4,7 @@
 //! of the documented loss, validated against finite differences by the `oracle_selftest`
 //! sub-check. A fit is judged by the norm of that gradient at the point linfa returns.
 
+pub mod batch;
 pub mod glm;
 pub mod isolate;
 pub mod logistic;
@@ -277,6 +278,7 @@ pub fn property() -> Property {
                     "default_tol_not_set",
                     "default_max_iter_not_set",
                 ]),
+            prop_sub("logistic_batch", 480, 4800, |_t: Tier| batch::cases(), batch::check).chunks(16).require(&["logistic_batch_many_parameters"]),
             prop_sub("oracle_selftest", 1200, 6000, |_t: Tier| self_strategy(), selftest).chunks(2),
         ],
     }
